@@ -312,9 +312,9 @@ def build_batch(sigs):
         rows.append("{%d,%d,%d,%d,%d,%d,%d,%s,{%s}}" % (len(at), tid[sg.ret] if sg.ret else -1, nvec, 1 if var or sg.ctx == "noproto" else 0, nid,
                                                         1 if abi.ret_where(sg.ret) == "memory" else 0, sink, repr(dsink),
                                                      ",".join(str(tid[a]) for a in sg.args) or "0"))
-        calls.append("{cc_r_%d,ref_r_%d,cc_s_%d,ref_s_%d}" % (n, n, n, n))
+        calls.append("{t_cc_r_%d,t_ref_r_%d,t_cc_s_%d,t_ref_s_%d}" % (n, n, n, n))
         for p in ("cc_", "ref_"):
-            stubs.append("t_%se_%d" % (p, n))
+            stubs += ["t_%se_%d" % (p, n), "t_%sr_%d" % (p, n), "t_%ss_%d" % (p, n)]
     # identity functions used by the argument-of-a-call contexts
     idtxt = []
     for t, nm in idfns.items():
@@ -339,7 +339,7 @@ def build_batch(sigs):
          "static const struct vp_ty VP_TY[] = {%s};" % ",\n".join(tys),
          "static const struct vp_sg VP_SG[] = {\n%s};" % ",\n".join(rows)]
     for n in range(len(sigs)):
-        d.append("void cc_r_%d(void), ref_r_%d(void), cc_s_%d(void), ref_s_%d(void);" % (n, n, n, n))
+        d.append("void t_cc_r_%d(void), t_ref_r_%d(void), t_cc_s_%d(void), t_ref_s_%d(void);" % (n, n, n, n))
     d.append("static void (*const VP_CALL[][4])(void) = {\n%s};" % ",\n".join(calls))
     with open(os.path.join(HARNESS, "c06_drv.c")) as f:
         drv = f.read()
@@ -735,7 +735,8 @@ def run(ctx):
                    "caller/callee compiler pairings (+gcc->gcc as self-check); non-trivial = the callee was entered and every value "
                    "byte of every argument and of the return value was compared against pat(k,i); all signatures are distinct by "
                    "construction (deduplicated on the full descriptor)",
-              bounds="A: all structs/unions of <=%d scalar|T[2] members over {char,short,int,long,float,double}, one nesting level, size<=16 "
+              bounds="A: all structs (member sequences) and unions (member sets, both declaration orders) of <=%d scalar|T[2] members over "
+                     "{char,short,int,long,float,double} plus one nesting level (inner aggregate of 1-2 members alone, beside a plain member, or two inner structs), size<=16 "
                      "(+%d named shapes, %d MEMORY, %d x87 aggregates), each as argument and return type at the (g,s) filler positions that "
                      "exactly fit / miss by one GP or SSE register; B: %d probes (9 primitives + one aggregate per (size, eightbyte classes) shape) x "
                      "g GP fillers x s SSE fillers x trailing primitive; B2: probe first / interleaved fillers; C: every return class x g x s x struct arg; "
